@@ -22,6 +22,8 @@ def gen_history(rng, profile):
        update     sessions that do not commit may contain UPDATE (recorded finding: unstamped UPDATE)"""
     g = Gen(rng, set())
     g.h.cfg = rng.choice(CACHES) if "steal" in profile else "cache=10000"
+    if "big" in profile:
+        g.h.cfg = rng.choice(["cache=6", "cache=8", "cache=12"])
     used = {}
     nt = rng.choice([1, 2])
     for i in range(nt):
@@ -122,8 +124,12 @@ def gen_history(rng, profile):
             g.h.batch(stmts)
             used[t.tid] = list(range(1, g.next_id))
         elif mode == "ckpt":
+            if open_sessions:
+                g.classes.add("checkpoint-with-open-transaction")
             g.h.simple("F", "AFlush")
         elif mode == "vacuum":
+            if open_sessions:
+                g.classes.add("checkpoint-with-open-transaction")
             g.h.simple("V", "AVacuum")
         elif mode == "bulk":
             n = rng.choice([40, 70, 110])
@@ -132,19 +138,12 @@ def gen_history(rng, profile):
                 g.h.x(G.insert_sql(t, rows), G.insert_coq(t, rows), sorted_=True)
             used[t.tid] = list(range(1, g.next_id))
         elif mode == "big":
-            # enough rows to outgrow a small cache: dirty pages are evicted (written) between checkpoints.  No table gets
-            # more than 200 rows (the catalog row of a table takes one version per inserted row and a row holds at most
-            # 255 versions), so the volume comes from several tables with long text values.
-            long_text = b"abcdefghij" * 10
-            for _ in range(rng.choice([2, 3])):
-                bt = mk_table(rng, g.next_tid, constrained=(rng.random() < 0.5))
-                bt.name = "t%d" % g.next_tid
-                g.next_tid += 1
-                g.tables.append(bt)
-                all_tables.append(bt)
-                g.h.x(bt.create_sql(), bt.create_coq())
-                for _ in range(rng.choice([5, 8])):
-                    rows = [[G.lit_int(i), G.lit_int(i % 7), G.lit_int(-i), G.lit_text(long_text)] + ([G.lit_int(i * 3)] if len(bt.cols) == 5 else [])
+            # enough rows to outgrow a very small cache: dirty pages are evicted (written) between checkpoints.  No table
+            # gets more than ~150 rows (the catalog row of a table takes one version per inserted row and a row holds at
+            # most 255 versions)
+            for bt in list(g.tables):
+                for _ in range(rng.choice([3, 5])):
+                    rows = [[G.lit_int(i), G.lit_int(i % 7), G.lit_int(-i), G.lit_text(b"abcdefghij")] + ([G.lit_int(i * 3)] if len(bt.cols) == 5 else [])
                             for i in g.fresh_ids(25)]
                     g.h.x(G.insert_sql(bt, rows), G.insert_coq(bt, rows), sorted_=True)
                 used[bt.tid] = list(range(1, g.next_id))
@@ -169,7 +168,10 @@ def gen_history(rng, profile):
 
 def gen_case(rng, profile, points, nested="0", kind="history"):
     g, tables = gen_history(rng, profile)
-    rust = "crash %s %s %s %s | %s" % (g.h.cfg, ",".join(t.name for t in tables), points, nested, " | ".join(g.h.rust))
+    post = ";;".join("%s=INSERT INTO %s VALUES (%d, 1, 1, 'p'%s)" % (t.name, t.name, 900000 + t.tid, ", 1" if len(t.cols) == 5 else "")
+                     for t in tables)
+    rust = "crash %s %s %s %s P%s | %s" % (g.h.cfg, ",".join(t.name for t in tables), points, nested,
+                                          post.encode().hex(), " | ".join(g.h.rust))
     coq = "[%s] [%s]" % ("; ".join("%d" % t.tid for t in tables), "; ".join(g.h.coq))
     meta = dict(g.classes.meta(), profile=sorted(profile), tables=[t.name for t in tables])
     return Case(rust, coq, kind, meta)
@@ -249,3 +251,202 @@ def make_canon(check_flags=False, check_contents=True):
 
 def model_canon(line):
     return sql_canon(line.replace("~", " | ~")).replace(" | ~", "~")
+
+
+# ---------------------------------------------------------------------------------------------
+# model-independent oracle: insert-only histories whose committed ids are tracked here
+# ---------------------------------------------------------------------------------------------
+def gen_simple_case(rng, points, nested="0"):
+    """inserts only (autocommit, sessions that commit / roll back / stay open, batches), flushes while nothing is open;
+    the ids each table must hold after every action are computed here, without RefDB"""
+    names = ["t1", "t2"][:rng.choice([1, 2])]
+    acts, coq, ids_after = [], [], []
+    committed = {n: [] for n in names}
+    nxt = [1]
+
+    def fresh(n):
+        r = list(range(nxt[0], nxt[0] + n)); nxt[0] += n
+        return r
+
+    def ins(name, ids):
+        return "INSERT INTO %s VALUES %s" % (name, ", ".join("(%d, %d, 'x')" % (i, i * 3 % 11) for i in ids))
+
+    created = set()
+
+    def snap():
+        ids_after.append({n: (sorted(v) if n in created else None) for n, v in committed.items()})
+
+    for n in names:
+        acts.append("X CREATE TABLE %s (id INT, k INT, s TEXT)" % n); created.add(n); snap()
+    open_sessions = 0
+    for r in range(rng.choice([4, 6, 9])):
+        mode = rng.choice(["auto", "auto", "commit", "rollback", "open", "flush", "batch"])
+        name = rng.choice(names)
+        if mode == "auto":
+            ids = fresh(rng.choice([1, 2, 3]))
+            acts.append("X " + ins(name, ids)); committed[name] += ids; snap()
+        elif mode in ("commit", "rollback", "open"):
+            k = 10 + r
+            acts.append("B %d" % k); snap()
+            mine = {}
+            for _ in range(rng.choice([1, 2, 3])):
+                nm = rng.choice(names)
+                ids = fresh(rng.choice([1, 2]))
+                acts.append("Q %d %s" % (k, ins(nm, ids))); snap()
+                mine.setdefault(nm, []).extend(ids)
+            if rng.random() < 0.4:
+                ids = fresh(1)
+                acts.append("X " + ins(name, ids)); committed[name] += ids; snap()
+            if mode == "commit":
+                for nm, ids in mine.items():
+                    committed[nm] += ids
+                acts.append("C %d" % k); snap()
+            elif mode == "rollback":
+                acts.append(rng.choice(["R %d", "D %d"]) % k); snap()
+            else:
+                open_sessions += 1
+        elif mode == "flush":
+            if open_sessions == 0:
+                acts.append("F"); snap()
+        else:
+            a, b = fresh(1), fresh(2)
+            acts.append("T %s ;; %s" % (ins(name, a), ins(name, b))); committed[name] += a + b; snap()
+    rust = "crash cache=10000 %s %s %s | %s" % (",".join(names), points, nested, " | ".join(acts))
+    return Case(rust, None, "simple", {"ids": ids_after, "tables": names, "classes": [], "class_pos": {}})
+
+
+_IDS = re.compile(r"(?:^|;)(-?\d+),")
+
+
+def simple_oracle(case, il):
+    """acknowledged inserts are there, nothing else is (ids only), at every crash point outside the recorded windows"""
+    ids_after = case.meta.get("ids")
+    if ids_after is None:
+        return None
+    p = parse_records(case.meta.get("impl_raw", ""))
+    if p is None:
+        return ("unreadable harness answer: %s" % case.meta.get("impl_raw", "")[:200], 0)
+    answers, recs = p
+    if any(a.startswith("err") or a in ("hang",) for a in answers):
+        return None     # the live run itself failed: not a crash question
+    names = case.meta["tables"]
+    for (k1, k2, j, f, w, dump, flags) in recs:
+        if w:
+            continue
+        if dump.startswith("openerr"):
+            return ("crash point %d (%d actions acknowledged): the database does not open: %s" % (k1, j, dump), max(j - 1, 0))
+        got = {}
+        for part in re.split(r",(?=t\d+=)", dump):
+            n, _, v = part.partition("=")
+            if v.startswith("rows!:"):
+                body = v[v.index("[") + 1:-1]
+                got[n] = sorted(int(x.split(",")[0]) for x in body.split(";")) if body else []
+            else:
+                got[n] = None
+        allowed = [{n: None for n in names} if j == 0 else ids_after[j - 1]]
+        if f and j < len(ids_after):
+            allowed.append(ids_after[j])
+        if not any(all(got.get(n) == a.get(n) for n in names) for a in allowed):
+            return ("crash point %d (%d actions acknowledged%s): tables hold ids %s, acknowledged commits define %s" % (
+                k1, j, ", one in progress" if f else "", got, allowed[0]), max(j - 1, 0) if not f else j)
+    return None
+
+
+# ---------------------------------------------------------------------------------------------
+# protocol stream: the crash model (Model/Crash.v, key/value instance) against the engine
+# ---------------------------------------------------------------------------------------------
+def gen_protocol_case(rng):
+    """one table t (id INT, v INT); every action is rendered as harness SQL and as the model's events.  Transaction ids
+    are the engine's: one per autocommit statement and per session, from 0."""
+    acts, evs = [], []
+    tid = [0]
+    committed = {}          # id -> v as committed
+    locked = set()          # ids written by open sessions
+    nxt = [1]
+    sessions = {}           # k -> (tid, local inserted ids)
+
+    def begin():
+        t = tid[0]; tid[0] += 1
+        evs.append("EBegin")
+        return t
+
+    t0 = begin()
+    acts.append("X CREATE TABLE t (id INT, v INT)")
+    evs += ["EOp %d OCreate" % t0, "ECommit %d" % t0, "EEnd %d" % t0]
+    for r in range(rng.choice([4, 7, 10])):
+        mode = rng.choice(["ins", "ins", "upd", "del", "session", "session", "flush", "noop"])
+        if mode == "ins":
+            t = begin()
+            ids = list(range(nxt[0], nxt[0] + rng.choice([1, 2]))); nxt[0] += len(ids)
+            acts.append("X INSERT INTO t VALUES " + ", ".join("(%d, %d)" % (i, i + 10) for i in ids))
+            for i in ids:
+                evs.append("EOp %d (OIns %d (%d)%%Z)" % (t, i, i + 10)); committed[i] = i + 10
+            evs += ["ECommit %d" % t, "EEnd %d" % t]
+        elif mode in ("upd", "del", "noop"):
+            free = [i for i in committed if i not in locked]
+            t = begin()
+            if mode == "noop" or not free:
+                acts.append("X UPDATE t SET v = 0 WHERE id = 99999")
+            else:
+                i = rng.choice(free)
+                if mode == "upd":
+                    v = rng.randrange(-5, 50)
+                    acts.append("X UPDATE t SET v = %d WHERE id = %d" % (v, i))
+                    evs.append("EOp %d (OUpd %d (%d)%%Z)" % (t, i, v)); committed[i] = v
+                else:
+                    acts.append("X DELETE FROM t WHERE id = %d" % i)
+                    evs.append("EOp %d (ODel %d)" % (t, i)); del committed[i]
+            evs += ["ECommit %d" % t, "EEnd %d" % t]
+        elif mode == "session":
+            k = 10 + r
+            t = begin()
+            acts.append("B %d" % k)
+            mine = []
+            for _ in range(rng.choice([1, 2])):
+                i = nxt[0]; nxt[0] += 1
+                acts.append("Q %d INSERT INTO t VALUES (%d, %d)" % (k, i, i + 10))
+                evs.append("EOp %d (OIns %d (%d)%%Z)" % (t, i, i + 10)); mine.append(i)
+            # an autocommit statement while the session is open
+            if rng.random() < 0.5:
+                t2 = begin()
+                i = nxt[0]; nxt[0] += 1
+                acts.append("X INSERT INTO t VALUES (%d, %d)" % (i, i + 10))
+                evs += ["EOp %d (OIns %d (%d)%%Z)" % (t2, i, i + 10), "ECommit %d" % t2, "EEnd %d" % t2]; committed[i] = i + 10
+            end = rng.choice(["commit", "commit", "rollback", "drop", "open", "flush-open"])
+            if end == "flush-open":
+                acts.append("F"); evs += ["EForce", "ECheckpoint"]
+                end = rng.choice(["commit", "rollback", "open"])
+            if end == "commit":
+                acts.append("C %d" % k); evs += ["ECommit %d" % t, "EEnd %d" % t]
+                for i in mine:
+                    committed[i] = i + 10
+            elif end in ("rollback", "drop"):
+                acts.append(("R %d" if end == "rollback" else "D %d") % k); evs += ["EAbort %d" % t, "EEnd %d" % t]
+            else:
+                locked.update(mine)
+        else:
+            acts.append("F"); evs += ["EForce", "ECheckpoint"]
+    rust = "crash cache=10000 t all 0 P L | " + " | ".join(acts)
+    return Case(rust, "[%s]" % "; ".join(evs), "protocol", {"classes": [], "class_pos": {}})
+
+
+def protocol_canon_model(line):
+    return " | ".join(sql_canon(s) for s in line.split(" | "))
+
+
+def protocol_canon_case(case, raw):
+    """the distinct on-disk situations (log records # recovered contents) the history went through, in order, at the
+    crash points where the data file is a completed checkpoint image"""
+    p = parse_records(raw)
+    if p is None:
+        return raw
+    answers, recs = p
+    if any(a.startswith("err") for a in answers):
+        return "live-error " + " | ".join(answers)
+    out = []
+    for (k1, k2, j, f, w, dump, flags) in recs:
+        if w:
+            continue
+        if not out or out[-1] != dump:
+            out.append(dump)
+    return " | ".join(out)
